@@ -22,7 +22,7 @@ SHARDS = {'quick': 4, 'thorough': 16}
 BUDGET_S = {'quick': 150, 'thorough': 400}
 RULE = ('texts over letters, digits (so " 28" and " 29" occur), spaces and the eight line-break forms at all '
         'positions (start, end, doubled) for iter_splitlines, plus texts of 66k-1.1M characters with a break form straddling '
-        'every power-of-two offset; file contents (empty, one line +- trailing newline, '
+        'every power-of-two and round decimal offset (also \\r\\r\\n and similar runs); file contents (empty, one line +- trailing newline, '
         'leading blank lines, multi-byte characters, \\r\\n straddling every block edge) read backwards with every '
         'blocksize 1..len+2 as BytesIO / real binary file / real text-mode file / update-mode handles (w+, a+, r+, w+b) that '
         'were just written through and not flushed; JSON Lines files with blank and '
@@ -59,14 +59,19 @@ def big_text(c):
         n += len(w)
     chars = list(''.join(filler)[:c['size']])
     br = c['break']
+    edges = set()
     p = 1024
-    while p + 2 < len(chars):
-        at = p + c['shift']       # shift -1: a two-character break straddles offset p
-        chars[at:at + len(br)] = list(br)
+    while p < len(chars):
+        edges.add(p)              # powers of two
         p *= 2
-    for m in (3, 5, 6, 7):        # and at multiples of 65536 that are not powers of two
-        at = m * 65536 + c['shift']
-        if at + 2 < len(chars):
+    for m in (3, 5, 6, 7):
+        edges.add(m * 65536)      # multiples of 65536 that are not powers of two
+    for e in range(3, 7):
+        for m in (1, 2, 3, 4, 5):
+            edges.add(m * 10 ** e)    # round decimal sizes (10000, 50000, 100000, 200000 ...)
+    for w in sorted(edges):
+        at = w + c['shift']       # shift -1: a two-character break straddles offset w
+        if 0 <= at and at + len(br) + 1 < len(chars):
             chars[at:at + len(br)] = list(br)
     return ''.join(chars)
 
@@ -110,6 +115,11 @@ def expected_reverse(content_bytes):
     if text == '':
         return []
     return list(reversed(text.replace('\r\n', '\n').split('\n')))
+
+
+# text-mode handles whose encoding is not plain UTF-8 (see known_findings.json): every line is decoded as UTF-8
+ENCODING_IGNORED = ('text-file-utf-8-sig-bom', 'text-file-latin-1', 'text-file-utf-16')
+ENCODING_IGNORED_SIG = 'reverse_iter_lines:text-mode:handle-encoding-ignored'
 
 
 def check_rev(c, st):
@@ -170,6 +180,24 @@ def check_rev(c, st):
                         except Exception:
                             pass
                     st.count('reverse_on_just_written_handles')
+                elif kind in ('text-file-utf-8-sig', 'text-file-utf-8-sig-bom', 'text-file-latin-1', 'text-file-utf-16'):
+                    enc = kind[len('text-file-'):].replace('-bom', '')
+                    with open(path, 'wb') as f:
+                        if kind.endswith('-bom'):
+                            f.write(b'\xef\xbb\xbf')
+                        f.write(data if enc == 'utf-8-sig' else c['content'].encode(enc, 'replace'))
+                    fo = open(path, 'r', encoding=enc, newline='')
+                    try:
+                        whole = fo.read()
+                        fo.seek(0)
+                        out = list(ju.reverse_iter_lines(fo, blocksize=bs))
+                    finally:
+                        try:
+                            fo.close()
+                        except Exception:
+                            pass
+                    want = list(reversed(whole.replace('\r\n', '\n').split('\n'))) if whole else []
+                    st.count('reverse_on_other_text_encodings')
                 else:
                     with open(path, 'wb') as f:
                         f.write(data)
@@ -183,9 +211,14 @@ def check_rev(c, st):
                             pass
                     want = want_text
             except Exception as e:
+                if kind in ENCODING_IGNORED or (kind == 'text-file-utf-8-sig' and c['content'].startswith('\ufeff')):
+                    return (ENCODING_IGNORED_SIG, 'reverse_iter_lines(%r as %s, blocksize=%d) raised %r' % (c['content'], kind, bs, e))
                 return ('reverse_iter_lines-raised:%s' % type(e).__name__,
                         'reverse_iter_lines(%r as %s, blocksize=%d) raised %r' % (c['content'], kind, bs, e))
             results[(kind, bs)] = out
+            if out != want and (kind in ENCODING_IGNORED or (kind == 'text-file-utf-8-sig' and c['content'].startswith('\ufeff'))):
+                return (ENCODING_IGNORED_SIG, 'reverse_iter_lines(%r as %s, blocksize=%d) = %r, the handle itself reads %r'
+                        % (c['content'], kind, bs, out, want))
             if out != want:
                 has_break = any(('\n' in x or '\r' in x) if isinstance(x, str) else (b'\n' in x or b'\r' in x) for x in out)
                 first = results.get((kind, sizes[0]))
@@ -213,6 +246,8 @@ def check_jsonl(c, st):
             lines.append(' ' * item[1])
         elif item[0] == 'corrupt-bytes':
             lines.append('\udcff\udcfe{"cut": "\udce6\udc97')      # undecodable bytes (written via surrogateescape)
+        elif item[1] == '<deep>':
+            lines.append('[' * 100000)       # nested far beyond what the decoder can follow: not a ValueError
         else:
             lines.append(item[1])
     if c.get('align'):
@@ -314,6 +349,13 @@ def gen(r):
             content = ''.join(ln + (nl if r.random() < 0.8 else r.choice(['\n', '\r\n'])) for ln in lines)
             if r.random() < 0.5:
                 content = content.rstrip('\r\n')
+        if r.random() < 0.12:
+            kinds = [r.choice(['text-file-utf-8-sig', 'text-file-utf-8-sig', 'text-file-utf-8-sig', 'text-file-utf-8-sig-bom',
+                               'text-file-latin-1', 'text-file-utf-16'])]
+            if r.random() < 0.7 and content:
+                # U+FEFF as ordinary content at the start of some lines
+                content = '\n'.join(('\ufeff' + ln if r.random() < 0.4 else ln) for ln in content.split('\n'))
+            return {'kind': 'rev', 'content': content, 'kinds': kinds}
         kinds = r.choice([['bytesio'], ['bytesio', 'binary-file'], ['bytesio', 'text-file'], ['binary-file', 'text-file'],
                           ['bytesio', r.choice(['text-file-w+', 'text-file-a+', 'binary-file-w+', 'text-file-r+'])]])
         return {'kind': 'rev', 'content': content, 'kinds': kinds}
@@ -336,7 +378,7 @@ def gen(r):
                 items.append(['corrupt-bytes'])     # a record cut in the middle of a multi-byte character
                 size += 14
             else:
-                items.append(['corrupt', r.choice(['{bad json', 'nope', '{"a": ', '[1, 2', '{"s": "\u2028',
+                items.append(['corrupt', r.choice(['<deep>', '{bad json', 'nope', '{"a": ', '[1, 2', '{"s": "\u2028',
                                                    '{"a": 1}{"b": 2}', '{"a": 1}}', '12 monkeys', 'null pointer',
                                                    '[1, 2], 3', '"s" "t"', '{"a": 1},'])])
                 size += 8
@@ -383,9 +425,10 @@ def run(ctx):
                 for i, (size, br, shift) in enumerate(
                     [(70000, '\r\n', -1), (140000, '\r\n', -1), (70000, '\n', -1), (70000, '\r\n', 0), (300000, '\r\n', -1),
                      (70000, '\r', -1), (140000, '\u2028', -1), (66000, '\r\n', -2), (140000, '\x85', 0), (270000, '\r\n', 0),
-                     (70000, '\x0b', -1), (1100000, '\r\n', -1)])]
+                     (70000, '\x0b', -1), (1100000, '\r\n', -1), (210000, '\r\r\n', -1), (210000, '\r\r\n', -2),
+                     (120000, '\n\r\n', -1), (330000, '\r\n\r\n', -2), (210000, '\r\n\r', -2), (520000, '\r\r\n', -1)])]
         mine = [b for i, b in enumerate(bigs) if i % ctx.nshards == ctx.shard]
-        for b in (mine if ctx.thorough else mine[:2]):
+        for b in (mine if ctx.thorough else mine[:5]):
             run_case(ctx, b, check, 'split-big', None, {})
         explore_cases(ctx, gen, check, {'quick': 2000, 'thorough': 60000}[ctx.tier], 'lines', shrink)
     finally:
